@@ -89,6 +89,16 @@ def rigStep (cfg : RigCfg) (ecu : Ecu) (c : RCall) : Ecu × Py RData :=
     | .error err => (x.1, throw err)
     | .ok resp => (x.1, c.interpret cfg resp.data)
 
+/-- the same call when the reply arrives too late (after the request timeout): the ECU has executed the request, the caller gets a timeout -/
+def rigStepLate (cfg : RigCfg) (ecu : Ecu) (c : RCall) : Ecu × Py RData :=
+  match c.request cfg with
+  | .error err => (ecu, throw err)
+  | .ok req =>
+    match req.getPayload none, req.service with
+    | .ok p, some _ => ((ecu.step p).1, throw .timeout)
+    | .error err, _ => (ecu, throw err)
+    | .ok _, none => (ecu, throw .valueErr)
+
 /-- a history of calls -/
 def rigRun (cfg : RigCfg) (ecu : Ecu) (cs : List RCall) : Ecu := cs.foldl (fun e c => (rigStep cfg e c).1) ecu
 
